@@ -2,6 +2,7 @@ import Logrange.Proofs.Date
 import Logrange.Proofs.DateRoundTrip
 import Logrange.Proofs.DateLineParser
 import Logrange.Generated.C20
+import Logrange.Props.C20Formats
 /-!
 # C20 — Timestamp text is parsed to the instant it denotes, for every supported format
 
@@ -20,13 +21,6 @@ lower-casing cause (F19a) is repaired in /repo (ab30677): `lql_T_literal_is_noon
 -/
 namespace Logrange.Props.C20
 open Logrange.Date Logrange.Generated
-
-def gterms : List Term := C20.terms
-def colFmts : List CFormat := C20.collectorFormats.map (compile gterms)
-def lqlFmts : List CFormat := C20.lqlFormats.map (compile gterms)
-def gadj : Adjust := { year := C20.formatParseAdjustsYear, date := C20.formatParseAdjustsDate }
-def gcfg : LqlCfg :=
-  { lower := C20.lqlLowerCases, trim := C20.lqlTrimsBlanks, fmtLower := C20.lqlLowerCases && C20.lqlFormatsSeeLowerCased, adj := gadj }
 
 /-! ## Integer literals -/
 
